@@ -133,15 +133,18 @@ def setLat (s : State) (n : Name) (t : Int) : State × Res :=
   | (s1, .ok) => (updFile s1 n (fun f => { f with lat := some (truncSec t) }), .ok)
   | r => r
 
+/-- the part of `TryStore` for a new file that runs before the deferred eviction check -/
+def createInsert (s : State) (n : Name) (size : Nat) : State :=
+  { s with map := (n, s.now) :: s.map,
+           files := KV.put s.files n { size := size, mtime := s.now, lat := some (truncSec s.now) } }
+
 /-- `CreateFile(name, state, size)`; the data file's mtime is whatever the harness sets afterwards -/
 def create (s : State) (n : Name) (size : Nat) : State × Res :=
   if KV.has s.map n then ((access s n).1, .exist)        -- LoadForRead touches the entry
   else if KV.has s.files n then (storeEntry s n, .exist)
   else
     -- TryStore: entry to the front, LAT sidecar written (now), then the file is created, then eviction
-    let s1 := { s with map := (n, s.now) :: s.map,
-                        files := KV.put s.files n { size := size, mtime := s.now, lat := some (truncSec s.now) } }
-    (evictIfNeeded s1, .ok)
+    (evictIfNeeded (createInsert s n size), .ok)
 
 /-- `DeleteFile(name)`: the entry leaves the map even when the file is persisted and stays -/
 def delete (s : State) (n : Name) : State × Res :=
@@ -310,6 +313,88 @@ def step (s : State) : Op → State
   | .cleanupTTL tti ttl p u => (cleanupTTL s tti ttl p u).1
   | .cleanupPolicy p u => (cleanupPolicy s p u).1
   | .job interval c util u => (jobCleanup { s with now := s.now + interval } c util u).1
+
+/-! ### inside an eviction
+
+`syncRemoveOldestIfNeeded` is not atomic for the rest of the store: it locks the oldest entry, runs the
+entry's `Delete` (persist check, then removal of the directory) and removes the entry from the map.  Other
+operations run in between.  `Order.unmapLast` is the code as it is: the entry stays in the map — locked —
+until its file is gone, so every operation that needs this entry waits.  `Order.unmapFirst` is the variant
+that drops the entry from the map before deleting the file: operations on that name then load a second,
+independently locked entry while the first is still being deleted. -/
+
+inductive Order where
+  | unmapLast | unmapFirst
+  deriving Repr, DecidableEq
+
+/-- progress of the eviction in flight -/
+inductive Ev where
+  | idle
+  | locked (n : Name)                  -- the oldest entry is locked, `Delete` has not looked at the flag yet
+  | decided (n : Name) (del : Bool)    -- the persist check is done: the directory will (not) be removed
+  deriving Repr, DecidableEq
+
+structure XState where
+  s : State
+  ev : Ev := .idle
+  deriving Repr, DecidableEq
+
+def Ev.name : Ev → Option Name
+  | .idle => none
+  | .locked n => some n
+  | .decided n _ => some n
+
+/-- does the operation need the entry of `n`?  Passes visit every file. -/
+def Op.touches : Op → Name → Bool
+  | .create m _, n => m == n
+  | .setMtime m _, n => m == n
+  | .read m, n => m == n
+  | .stat m, n => m == n
+  | .persist m _, n => m == n
+  | .unpersist m, n => m == n
+  | .setLat m _, n => m == n
+  | .delete m, n => m == n
+  | .tick _, _ => false
+  | .cleanupTTL .., _ => true
+  | .cleanupPolicy .., _ => true
+  | .job .., _ => true
+
+inductive Act where
+  | insert (n : Name) (size : Nat)   -- `TryStore` of a new file up to (not including) its deferred eviction check
+  | begin               -- an over-capacity map locks its oldest entry
+  | check               -- the entry's Delete reads the persist flag
+  | finish              -- the directory is removed (if decided so) and the eviction ends
+  | api (o : Op)        -- any store operation, by any other goroutine
+  deriving Repr, DecidableEq
+
+def xstep (ord : Order) (x : XState) : Act → XState
+  | .insert n size =>
+    if KV.has x.s.map n || KV.has x.s.files n then x else { x with s := createInsert x.s n size }
+  | .begin =>
+    match x.ev with
+    | .idle =>
+      if x.s.cap = 0 ∨ x.s.map.length ≤ x.s.cap then x
+      else match x.s.map.getLast? with
+        | none => x
+        | some (n, _) =>
+          { s := if ord = .unmapFirst then { x.s with map := KV.del x.s.map n } else x.s, ev := .locked n }
+    | _ => x
+  | .check =>
+    match x.ev with
+    | .locked n =>
+      { x with ev := .decided n (match KV.get x.s.files n with | some f => !isPersisted f | none => true) }
+    | _ => x
+  | .finish =>
+    match x.ev with
+    | .decided n del =>
+      { s := { x.s with files := if del then KV.del x.s.files n else x.s.files, map := KV.del x.s.map n }, ev := .idle }
+    | _ => x
+  | .api o =>
+    match ord, x.ev.name with
+    | .unmapLast, some n => if o.touches n then x else { x with s := step x.s o }   -- waits for the entry lock
+    | _, _ => { x with s := step x.s o }
+
+def xrun (ord : Order) (x : XState) (acts : List Act) : XState := acts.foldl (xstep ord) x
 
 def init (cap : Nat) (now : Int) : State := { cap := cap, now := now }
 
